@@ -270,6 +270,7 @@ func (r *recLogDB) SaveSnapshots(updates []pb.Update) error {
 	if err != nil {
 		return err
 	}
+	ahead := false
 	r.h.mu.Lock()
 	if !r.h.crashed {
 		for i := range updates {
@@ -279,10 +280,20 @@ func (r *recLogDB) SaveSnapshots(updates []pb.Update) error {
 				if ud.Snapshot.Index > s.SnapIndex {
 					s.SnapIndex, s.SnapTerm = ud.Snapshot.Index, ud.Snapshot.Term
 				}
+				if ud.Snapshot.Index > s.Commit && s.Saves > 0 {
+					// committed entries are handed to the apply worker before the update that carries
+					// the new commit index is persisted (fast apply): the snapshot of what was applied
+					// has just become durable while the durable hard state still has a lower commit
+					ahead = true
+				}
 			}
 		}
 	}
 	r.h.mu.Unlock()
+	if ahead {
+		r.h.c.Sink.Count("snapshot_records_durable_ahead_of_the_durable_commit_index", 1)
+		r.h.AtPoint(SiteSnapshotRecordedAheadOfCommit)
+	}
 	return nil
 }
 
